@@ -3,6 +3,8 @@ import CalicoVerif.Proofs.C01Seq
 import CalicoVerif.Proofs.C01Rs
 import CalicoVerif.Proofs.C01Arc
 import CalicoVerif.Proofs.C01Prof
+import CalicoVerif.Proofs.C01Valid
+import CalicoVerif.Proofs.C01Acc
 /-!
 C01 — Felix's computed dataplane state depends only on current datastore state.
 
@@ -27,9 +29,12 @@ What is PROVED (all histories, all flush placements):
 * `arc_profile_table_eq_spec_partial` — the ARC profile path inside the composed graph IS the C05 model
   run on the projected history, so C05's `view_eq_spec` holds for the graph: the rule scanner's profile
   table (real rules / deny stand-in / absent) is a function of the current inputs only;
+* `ipset_add_remove_valid_partial`, `declared_eq_rulescanner_partial` — for the whole graph and every
+  history: OnIPSetAdded/Removed calls respect the protocol; declared policies/profiles = the RuleScanner's
+  `active` table; declared IP sets = the sets referenced by it (from `rulescanner_eq_spec` carried
+  through the graph);
 * `calc_history_independent_partial` — the end-to-end statement `accumulate (run h) = fresh (lastState h)`,
-  derived from Theorem A under the explicit, NAMED upstream contract `UpstreamContract` (protocol
-  validity + "declared = fresh" per component).  The contract is what the remaining node theorems must
+  derived from Theorem A and the two theorems above under the explicit, NAMED `RemainingContract`.  The contract is what the remaining node theorems must
   discharge compositionally: policies/profiles (ARC over C07 `index_eq_eval`/`callbacks_alternate` +
   `rulescanner_eq_spec` + C05 `view_eq_spec`), IP sets (`rulescanner_eq_spec` + C04
   `ipset_members_eq_spec`/`members_once_and_alternate`), endpoints (C03 — whose refinement
@@ -72,6 +77,11 @@ def Fresh.toDP (f : Fresh) : DP :=
     prof := fun k => mget f.profs k
     ep := fun k => (mget f.eps k).map (epDown k) }
 
+/-- The driver's printable, list-based accumulation (`Acc`, printed after every flush and compared with
+the real graph) denotes exactly `accumulate`. -/
+theorem accumulate_eq_acc (ms : List Msg) : accumulate ms = (({} : Acc).applyAll ms).toDP := by
+  rw [Acc.toDP_applyAll, Acc.toDP_empty]; rfl
+
 /-- THEOREM A (sequencer end; proved from C02's `Inv` / `flush_synced`): for EVERY history ending in a
 flush — any updates, any flush placement — if the calls the upstream nodes made on the EventSequencer
 respect the IP-set protocol, the state accumulated from ALL emitted messages is exactly the state those
@@ -82,24 +92,77 @@ theorem accumulate_eq_declared_partial (H : IdFn) (s : Bool) (h : List HStep)
       upAll {} (run H (Graph.new s) (h ++ [.flush])).1.calls :=
   accumulate_eq_declared H s h hv
 
-/-- The upstream contract of a history: what the nodes in front of the EventSequencer owe. -/
-structure UpstreamContract (H : IdFn) (s : Bool) (h : List HStep) : Prop where
-  /-- IP sets are added only when not declared / removed only when declared; members are added only
-  when absent / removed only when present (RuleScanner activation events: `rulescanner_eq_spec`;
-  member callbacks: C04 `members_once_and_alternate`) -/
-  valid : validAll {} (run H (Graph.new s) (h ++ [.flush])).1.calls
-  /-- the declared state is the specification (per component: active policies, active profiles,
-  IP sets with members, local endpoints with their tier lists; nothing else is declared) -/
-  declared : upAll {} (run H (Graph.new s) (h ++ [.flush])).1.calls = (fresh H s (lastState h)).toDP
+/-! ### what is proved about the upstream side, for every history -/
 
-/-- END-TO-END (partial: modelled nodes only, and under the named `UpstreamContract`): for every
+/-- PROVED (set half of the protocol, all histories): every `OnIPSetAdded` the graph makes is for an
+IP set that is not declared, every `OnIPSetRemoved` for one that is. -/
+theorem ipset_add_remove_valid_partial (H : IdFn) (s : Bool) (h : List HStep) :
+    setValidAll {} (run H (Graph.new s) h).1.calls :=
+  (rsInv_run h (rsInv_new H s)).setValid
+
+/-- PROVED (all histories): the declared policies and profiles are exactly the RuleScanner's `active`
+table (the rules each was last activated with); the declared IP sets are exactly the sets some active
+policy/profile references. -/
+theorem declared_eq_rulescanner_partial (H : IdFn) (s : Bool) (h : List HStep) :
+    let g := (run H (Graph.new s) h).1
+    (∀ k, (decl g).pol k = (mget g.active (.pol k)).map (rulesOf H)) ∧
+    (∀ p, (decl g).prof p = (mget g.active (.prof p)).map (rulesOf H)) ∧
+    (∀ uid, ((decl g).ipsets uid).isSome = true ↔
+      ∃ key r, mget g.active key = some r ∧ (mget (currentSets H r) uid).isSome = true) := by
+  have hi := rsInv_run h (rsInv_new H s)
+  refine ⟨hi.pol, hi.prof, ?_⟩
+  intro uid
+  rw [hi.dom uid]
+  show RuleScanner.uidInUse _ uid = true ↔ _
+  rw [uidInUse_iff]
+  constructor
+  · rintro ⟨k, hk⟩
+    obtain ⟨r, h1, h2⟩ := (hi.refs k uid).mp hk
+    exact ⟨k, r, h1, h2⟩
+  · rintro ⟨k, r, h1, h2⟩
+    exact ⟨k, (hi.refs k uid).mpr ⟨r, h1, h2⟩⟩
+
+/-- What REMAINS to be discharged for a history (each field names the node theorem that owes it). -/
+structure RemainingContract (H : IdFn) (s : Bool) (h : List HStep) : Prop where
+  /-- (b) C04 `members_once_and_alternate`: member callbacks add only absent / remove only present
+  members of a declared set -/
+  memberCalls : memberValidAll {} (run H (Graph.new s) (h ++ [.flush])).1.calls
+  /-- (a′) ARC → datastore: the `active` table is the specification's: a policy is active with its
+  current rules iff it selects a local endpoint (`arc_policy_matches_eq_eval_partial` + label-index
+  tables), a profile iff a local endpoint lists it (`arc_profile_table_eq_spec_partial`) -/
+  activePols : ∀ k, (mget (run H (Graph.new s) (h ++ [.flush])).1.active (.pol k)).map (rulesOf H) =
+      mget (fresh H s (lastState h)).pols k
+  activeProfs : ∀ p, (mget (run H (Graph.new s) (h ++ [.flush])).1.active (.prof p)).map (rulesOf H) =
+      mget (fresh H s (lastState h)).profs p
+  /-- (b) C04 `ipset_members_eq_spec` (+ the domain, proved above, + injectivity of `showMember`) -/
+  ipsets : (decl (run H (Graph.new s) (h ++ [.flush])).1).ipsets = (fresh H s (lastState h)).toDP.ipsets
+  /-- (c) C03 `resolver_eq_spec` (open in Props/C03): per-endpoint tier lists -/
+  endpoints : (decl (run H (Graph.new s) (h ++ [.flush])).1).ep = (fresh H s (lastState h)).toDP.ep
+  /-- no route / VTEP / pass-through call is ever made by the modelled nodes (true by inspection of the
+  five `emit` sites; not yet mechanised) -/
+  others : (decl (run H (Graph.new s) (h ++ [.flush])).1).vtep = (fun _ => none) ∧
+    (decl (run H (Graph.new s) (h ++ [.flush])).1).route = (fun _ => none) ∧
+    (decl (run H (Graph.new s) (h ++ [.flush])).1).gen = (fun _ _ => none)
+
+/-- END-TO-END (partial: modelled nodes only, and under the named `RemainingContract`): for every
 history `h` of datastore updates (duplicates, reverts, spurious deletes, invalid values = deletes) with
 flushes anywhere, followed by a final flush, the dataplane state described by everything emitted
-equals the state a fresh Felix emits for the final datastore state. -/
+equals the state a fresh Felix emits for the final datastore state.  The IP-set add/remove half of the
+protocol and "declared policies/profiles = RuleScanner table" are PROVED (above) and used here. -/
 theorem calc_history_independent_partial (H : IdFn) (s : Bool) (h : List HStep)
-    (hc : UpstreamContract H s h) :
+    (hc : RemainingContract H s h) :
     accumulate (run H (Graph.new s) (h ++ [.flush])).2 = (fresh H s (lastState h)).toDP := by
-  rw [accumulate_eq_declared_partial H s h hc.valid, hc.declared]
+  have hvalid : validAll {} (run H (Graph.new s) (h ++ [.flush])).1.calls :=
+    (validAll_iff _ _).mpr ⟨ipset_add_remove_valid_partial H s (h ++ [.flush]), hc.memberCalls⟩
+  rw [accumulate_eq_declared_partial H s h hvalid]
+  have hd := declared_eq_rulescanner_partial H s (h ++ [.flush])
+  simp only [] at hd
+  show decl _ = _
+  have hpol : (decl (run H (Graph.new s) (h ++ [.flush])).1).pol = (fresh H s (lastState h)).toDP.pol := by
+    funext k; rw [hd.1 k, hc.activePols k]; rfl
+  have hprof : (decl (run H (Graph.new s) (h ++ [.flush])).1).prof = (fresh H s (lastState h)).toDP.prof := by
+    funext p; rw [hd.2.1 p, hc.activeProfs p]; rfl
+  exact DP.ext' hc.ipsets hpol hprof hc.endpoints hc.others.1 hc.others.2.1 hc.others.2.2
 
 /-- RULE SCANNER node theorem (all histories of OnPolicyActive/Inactive, OnProfileActive/Inactive):
 `key` references exactly the IP sets of its latest rules; the OnIPSetActive / OnIPSetInactive events are a
